@@ -82,6 +82,30 @@ func genSweep(seed uint64, j int) (spec.Run, c10Meta) {
 		c10Meta{Shape: "fault-sweep", Faulted: true, TS: []string{ts}}
 }
 
+// genLongRun builds the long history of one codec: many distinct frames through Encode and
+// Decode in one process, then the first ones again. Bounded caches, pools and tables that
+// only misbehave after dozens of distinct inputs (wrong eviction, stale slots) need this;
+// the short seeded histories never fill them.
+func genLongRun(seed uint64, j int) (spec.Run, c10Meta) {
+	r := spec.NewRng(seed).Child(5)
+	ts := allTS[j%len(allTS)]
+	in := genInfo(r, ts, genOpt{maxDim: 12})
+	var ops []spec.Op
+	const groups, per = 6, 8
+	for g := 0; g < groups; g++ {
+		ops = append(ops, spec.Op{Kind: "enc", TS: ts, Info: in, Frames: genFrames(r, per), From: -1, Params: spec.Params{Mode: "nil"}})
+	}
+	for g := 0; g < groups; g++ {
+		ops = append(ops, spec.Op{Kind: "dec", TS: ts, Info: in, From: g, Params: spec.Params{Mode: "nil"}})
+	}
+	// second pass over the earliest streams, and the earliest frames encoded once more
+	ops = append(ops, spec.Op{Kind: "dec", TS: ts, Info: in, From: 0, Params: spec.Params{Mode: "nil"}})
+	ops = append(ops, spec.Op{Kind: "dec", TS: ts, Info: in, From: 1, FromSel: []int{7, 0, 3}, Params: spec.Params{Mode: "nil"}})
+	ops = append(ops, spec.Op{Kind: "enc", TS: ts, Info: in, Frames: ops[0].Frames, From: -1, Params: spec.Params{Mode: "nil"}})
+	return spec.Run{Mode: "history", Seed: seed, Tasks: []spec.Task{{Ops: ops}}, StepCap: 3e9},
+		c10Meta{Shape: "long-run", TS: []string{ts}}
+}
+
 func genHistory(seed uint64, idx int, thorough bool) (spec.Run, c10Meta) {
 	r := spec.NewRng(seed).Child(1)
 	meta := c10Meta{}
@@ -586,16 +610,24 @@ func checkC10(o checkOpts) int {
 	if thorough {
 		sweepRounds = 8
 	}
-	N := nGen + sweepRounds*nSweep()
+	longRounds := 1
+	if thorough {
+		longRounds = 4
+	}
+	nLong := longRounds * len(allTS)
+	N := nGen + sweepRounds*nSweep() + nLong
 	findings := loadFindings()
 	runs := make([]spec.Run, N)
 	metas := make([]c10Meta, N)
 	for i := 0; i < N; i++ {
 		s := spec.SplitMix64(o.seed ^ spec.SplitMix64(uint64(i)+0xC10))
-		if i < nGen {
+		switch {
+		case i < nGen:
 			runs[i], metas[i] = genHistory(s, i, thorough)
-		} else {
+		case i < N-nLong:
 			runs[i], metas[i] = genSweep(s, i-nGen)
+		default:
+			runs[i], metas[i] = genLongRun(s, i-(N-nLong))
 		}
 	}
 	results := make([]*spec.Result, N)
